@@ -33,7 +33,7 @@ func init() {
 	})
 	register(&Prop{
 		ID:    "C06",
-		Rules: []func(*core.Ctx){RSurface, RByteUnit, RUnsetPair, RNZero, RPrevInit, RDialectSib, RTentative, RPosixASCII, RUnitCmp, RLazyTable, rDirFoldOnly, RMapState, rCountNOnly, RNodeOpts},
+		Rules: []func(*core.Ctx){RSurface, RByteUnit, RUnsetPair, RNZero, RPrevInit, RDialectSib, RTentative, RPosixASCII, RUnitCmp, RLazyTable, rDirFoldOnly, RMapState, rCountNOnly, RNodeOpts, RTextSlice, RNilEmpty},
 		Explanation: "Structural necessary conditions of the adapter agreeing with the standard library: R-SURFACE (method-set and signature agreement with *regexp.Regexp, on go/types), R-BYTEUNIT (no rune position reaches an []int the adapter fills or a bound of a byte slice: SSA taint from Capture.RuneIndex / RuneLength, sanitised only by indexing an offset table), R-UNSETPAIR (groups without captures give -1 pairs / nil / \"\"), R-NZERO (n == 0 gives nil), R-PREVINIT (the first empty match is not dropped), R-DIALECTSIB (\\w \\d \\s \\b and their forms inside a class pick their ASCII dialect under the same option predicates), R-UNITCMP, R-LAZYTABLE, R-DIRFOLD (shared with C07/C08). " +
 			"That the adapter returns what the standard library returns for a pattern and input is an equality between two engines and is NOT decided.",
 	})
